@@ -19,7 +19,7 @@ RULE = ("annotated generated assemblies over every supported geometry (as C08) w
         "[A-Za-z0-9_]), with and without unused extra modules; registry assemblies; two-level compositions: k level-0 assemblies over "
         "one enzyme whose products (embedding the next level's sites by construction) are re-used as modules of a level-1 assembly over "
         "another enzyme. Non-trivial = product returned, provenance features tiled and the GenBank round trip compared; distinct = distinct input sets.")
-ASSUMPTIONS = ["ids are GenBank-legal (<= 16 characters of [A-Za-z0-9_]); names are 1..28 such characters (current GenBank/Biopython accept long LOCUS names)", "the GenBank format cannot express 'unstranded': None is compared as +1"]
+ASSUMPTIONS = ["ids are GenBank-legal (<= 16 characters of [A-Za-z0-9_]) or, now and then, empty (then no GenBank round trip is required); names are 0..28 such characters (current GenBank/Biopython accept long LOCUS names)", "the GenBank format cannot express 'unstranded': None is compared as +1"]
 FLOORS = {"c09_renamed_after_wrapping": 50, "c09_with_unused_module": 50, "c09_judged": 400, "c09_genbank_roundtrips": 400, "c09_fragment_counts_checked": 300, "c09_inner_provenance_checked": 50, "c09_registry_products": 8}
 MUST_REACH = ["add_as_source", "AssemblyManager._annotate_assembly"]
 NEEDS_REGISTRIES = True
@@ -76,6 +76,14 @@ def materialise(case):
                     break
         m["id"] = "".join(rng.choice(IDCH) for _ in range(rng.randint(1, 16)))
         m["name"] = "".join(rng.choice(IDCH) for _ in range(rng.choice([rng.randint(1, 16), rng.randint(17, 28)])))
+        # own stream: an empty requested name (the GenBank writer falls back to the id for the LOCUS line) or an empty
+        # requested id (not GenBank-legal: the round trip is then not required, the other clauses are)
+        re_ = gen.rng_for(case["seed"], PROP, "empty", case["i"])
+        x = re_.random()
+        if x < 0.06:
+            m["name"] = ""
+        elif x < 0.10:
+            m["id"] = ""
         return m
     return case
 
@@ -169,7 +177,7 @@ def execute(mat, ctx):
         res = _embedded.run_assembly(mat, ctx, records=shared)
         _mon.tag = {"call": 2}
         _embedded.run_assembly(mat, ctx, records=shared)
-        if mat["id"][:1] in "ABCDEFGHIJKLM":
+        if mat["id"] and mat["id"][:1] in "ABCDEFGHIJKLM":
             _mon.tag = {"call": "renamed-after-wrapping"}
             _embedded.run_assembly(mat, ctx, rename_after_wrap=True)
             ctx.count("c09_renamed_after_wrapping")
